@@ -445,6 +445,9 @@ func suiteShutdown(o *Out, r *Rng, n int, tier string) {
 			var ms *bstream.MultiplexedSource
 			var inner []bstream.Source
 			var imu sync.Mutex
+			// the goroutines that play the inner sources' Run loops: their check-then-push is not atomic, so a call may
+			// begin just after the shutdown; a handler call counts as late only once these loops have ended
+			var pushers sync.WaitGroup
 			nsrc := 2 + r.Intn(3)
 			var factories []bstream.SourceFactory
 			for f := 0; f < nsrc; f++ {
@@ -457,7 +460,9 @@ func suiteShutdown(o *Out, r *Rng, n int, tier string) {
 					imu.Lock()
 					inner = append(inner, ts)
 					imu.Unlock()
+					pushers.Add(1)
 					go func() {
+						defer pushers.Done()
 						for x := 0; x < 6; x++ {
 							if ts.IsTerminating() {
 								return
@@ -478,6 +483,16 @@ func suiteShutdown(o *Out, r *Rng, n int, tier string) {
 			if !ms.IsTerminating() {
 				time.Sleep(10 * time.Millisecond)
 				ms.Shutdown(errors.New("late shutdown"))
+			}
+			select {
+			case <-ms.Terminated():
+			case <-time.After(2 * time.Second):
+			}
+			pdone := make(chan struct{})
+			go func() { pushers.Wait(); close(pdone) }()
+			select {
+			case <-pdone:
+			case <-time.After(500 * time.Millisecond): // an inner source that was not shut down keeps pushing: reported as innerdown=0
 			}
 			imu.Lock()
 			in := append([]bstream.Source(nil), inner...)
